@@ -39,8 +39,8 @@ def cases(draw, tier):
     case = draw(gen.run_case(names=["Zooming"], midpoint_bias=True, T_max=600 if quick else 3000,
                              n_range=(100, 600) if quick else (100, 3000), script_prob=0.3, T_min=20, full_T_prob=0.5,
                              laws=["noise", "peak", "peakpos", "bump", "ties", "negative", "const", "large"]))
-    case["algo"]["params"]["nu"] = draw(st.one_of(st.floats(0.5, 10.0), gen.loguniform(0.05, 10.0)))
-    case["algo"]["params"]["rho"] = draw(st.one_of(st.floats(0.7, 0.99), st.floats(0.05, 0.99)))
+    case["algo"]["params"]["nu"] = draw(st.one_of(st.floats(0.5, 10.0), gen.loguniform(0.05, 10.0), st.sampled_from([20.0, 50.0, 1e3, 4e6])))
+    case["algo"]["params"]["rho"] = draw(st.one_of(st.floats(0.7, 0.99), st.floats(0.05, 0.99), st.sampled_from([0.99, 0.995])))
     if draw(st.integers(0, 24)) == 0:
         # a few long horizons with few arms (small nu: no refinement), so that single arms collect
         # thousands of pulls - behaviour that only changes at large counts is otherwise out of reach
